@@ -11,6 +11,11 @@ use std::marker::PhantomData;
 pub trait Elem: Copy + PartialEq + Debug + 'static {
     const WORLD: &'static str;
     fn make(i: usize) -> Self;
+    /// zero-sized element types can also have slices of astronomically large length
+    const HUGE_LEN_OK: bool = false;
+    fn make_vec(len: usize) -> Vec<Self> {
+        (0..len).map(Self::make).collect()
+    }
 }
 impl Elem for u8 {
     const WORLD: &'static str = "slices_u8";
@@ -21,6 +26,13 @@ impl Elem for u8 {
 impl Elem for () {
     const WORLD: &'static str = "slices_zst";
     fn make(_: usize) -> Self {}
+    const HUGE_LEN_OK: bool = true;
+    fn make_vec(len: usize) -> Vec<Self> {
+        let mut v: Vec<()> = Vec::new();
+        // SAFETY: a Vec of a zero-sized type has capacity usize::MAX and no elements to initialise
+        unsafe { v.set_len(len) };
+        v
+    }
 }
 /// 3 bytes, alignment 1: a size that is not a power of two
 #[derive(Copy, Clone, PartialEq, Debug)]
@@ -229,8 +241,18 @@ impl<T: Elem> Fam for SliceFam<T> {
             5 => *rng.pick(&[31usize, 32, 33, 63, 64, 65, 127, 128, 129]),
             _ => rng.range(0, maxlen),
         };
+        let len = if T::HUGE_LEN_OK && rng.chance(1, 10) { usize::MAX - rng.range(0, 9) } else { len };
         let kind = *rng.pick(&KINDS);
-        let size = if kind == SKind::ArrayChunks { rng.range(1, 4) } else { rng.range(1, len + 2) };
+        let size = if kind == SKind::ArrayChunks {
+            rng.range(1, 4)
+        } else if rng.chance(1, 24) {
+            // every size >= 1 is in scope: sizes near usize::MAX must not overflow the arithmetic
+            *rng.pick(&[usize::MAX, usize::MAX - 1, usize::MAX / 2 + 1, usize::MAX / 2, (1usize << 32) + 1])
+        } else if len > 1000 {
+            rng.range(1, 9)
+        } else {
+            rng.range(1, len + 2)
+        };
         SSetup { len, kind, size }
     }
 
@@ -240,6 +262,9 @@ impl<T: Elem> Fam for SliceFam<T> {
             out.push(SSetup { len: s.len - 1, ..s.clone() });
             out.push(SSetup { len: s.len / 2, ..s.clone() });
         }
+        if s.size > 64 {
+            out.push(SSetup { size: s.len + 1, ..s.clone() });
+        }
         if s.size > 1 {
             out.push(SSetup { size: s.size - 1, ..s.clone() });
         }
@@ -247,7 +272,11 @@ impl<T: Elem> Fam for SliceFam<T> {
     }
 
     fn datum(s: &SSetup) -> Vec<T> {
-        (0..s.len).map(T::make).collect()
+        if s.len > 100_000 && !T::HUGE_LEN_OK {
+            // (only reachable through a hand-edited replay file)
+            return T::make_vec(0);
+        }
+        T::make_vec(s.len)
     }
 
     fn m_new<'a>(s: &SSetup, d: &'a Vec<T>) -> SM<'a, T> {
@@ -425,6 +454,29 @@ impl<T: Elem> Fam for SliceFam<T> {
         if m.rev {
             cov.probe("slices-stepped-while-reversed");
         }
+    }
+
+    fn sweep_setups() -> Vec<SSetup> {
+        let mut v = Vec::new();
+        for kind in KINDS {
+            for len in [0usize, 1, 2, 3, 4, 7] {
+                if kind == SKind::ArrayChunks {
+                    for size in 1..=4usize {
+                        v.push(SSetup { len, kind, size });
+                    }
+                } else if matches!(kind, SKind::Iter | SKind::IterViaMacro | SKind::IterViaMacroRefRef | SKind::IterViaMacroArray | SKind::IterViaMacroArrayRefRef | SKind::Copied) {
+                    v.push(SSetup { len, kind, size: 1 });
+                } else {
+                    let mut sizes = vec![1usize, 2, 3, len.max(1), len + 1, usize::MAX];
+                    sizes.sort_unstable();
+                    sizes.dedup();
+                    for size in sizes {
+                        v.push(SSetup { len, kind, size });
+                    }
+                }
+            }
+        }
+        v
     }
 
     fn required_probes() -> &'static [&'static str] {
